@@ -46,6 +46,9 @@ type Config struct {
 
 var linkProtos = []string{"https:", "ftp:", "http:", "tel:", "x-app:", "javascript:", "data:", "file:", "vbscript:", "JavaScript:"}
 
+// looseEmail is a user-supplied e-mail pattern (WithLinkifyEmailRegexp) that lets a ':' into the local part.
+var looseEmail = regexp.MustCompile(`^[^\s@<>]+@[^\s@<>]+\.[^\s@<>]+`)
+
 // anySchemeURL is a user-supplied URL pattern (WithLinkifyURLRegexp) that accepts every scheme; it still needs a ':'.
 var anySchemeURL = regexp.MustCompile(`^[A-Za-z][A-Za-z0-9+.-]*:[^\s<]*[^\s<?!.,:*_~]`)
 
@@ -186,7 +189,7 @@ func (c Config) Extensions() []goldmark.Extender {
 		case 1:
 			exts = append(exts, extension.NewLinkify(extension.WithLinkifyAllowedProtocols(linkProtos[:2])))
 		case 2:
-			exts = append(exts, extension.NewLinkify(extension.WithLinkifyAllowedProtocols(linkProtos), extension.WithLinkifyURLRegexp(anySchemeURL)))
+			exts = append(exts, extension.NewLinkify(extension.WithLinkifyAllowedProtocols(linkProtos), extension.WithLinkifyURLRegexp(anySchemeURL), extension.WithLinkifyEmailRegexp(looseEmail)))
 		default:
 			exts = append(exts, extension.Linkify)
 		}
